@@ -5,6 +5,8 @@ Property statements over the model `MesonModel.Install` (helper results live in
 -/
 import MesonModel.Install.PathLemmas
 import MesonModel.Install.DryRunLemmas
+import MesonModel.Install.ConfineInstall
+import MesonModel.Install.UninstallLemmas
 
 namespace MesonModel.Props.C11
 open MesonModel.Install MesonModel.Py
@@ -37,6 +39,35 @@ theorem confined_destination (p : Plan) (o : Opts) (path out : Str)
     simp only [Option.some.injEq] at h
     exact ⟨ho, destOk_sound _ _ hd ho (h ▸ hok)⟩
   · simp at h
+
+/-- **Confinement of the whole installation.**  For every plan whose recorded directory walks hold directory-entry
+names and whose source paths do not end in `..` (`PlanOK`), every option set with a DESTDIR, and every initial
+tree: a key that is not under DESTDIR is bound after `meson install` exactly as before — the only exception being
+a strict ancestor of DESTDIR that was absent or a directory, which is a directory afterwards (DESTDIR's missing
+parents are created).  Install paths may contain `..`: `get_destdir_path` refuses the ones that leave DESTDIR.
+Holds for runs that raise half-way, `--dry-run`, `--only-changed`, any tags/skip selection. -/
+theorem confined (p : Plan) (o : Opts) (fs : FS) (hp : PlanOK p) (hne : (mkCfg p o).destdir ≠ [])
+    (k : Key) (hk : ¬ keyOfAbs (mkCfg p o).destdir <+: k) :
+    (install p o fs).fs.get k = fs.get k ∨
+    (k <+: keyOfAbs (mkCfg p o).destdir ∧ (fs.look k = none ∨ ∃ m', fs.look k = some (.dir m')) ∧
+      ∃ m, (install p o fs).fs.get k = some (.dir m)) :=
+  Inv_install p o fs hp hne k hk
+
+/-- the hypotheses of `confined` are satisfiable: a plan with headers, data, and a subdir walk with nested names -/
+example : PlanOK
+    { buildDir := "/b".toList, pfx := "/usr".toList, umask := some 0o022, targets := [], man := [], emptydirs := [],
+      symlinks := [],
+      headers := [{ path := "/s/a b.h".toList, src := .file 0o600 7 3, installPath := "include/../inc".toList,
+                    mode := none, subproject := [], tag := none, follow := none }],
+      data := [{ path := "/s/t".toList, src := .linkDangling "nowhere".toList, installPath := "/opt/t o/t".toList,
+                 mode := none, subproject := [], tag := none, follow := none }],
+      subdirs := [{ path := "/s/tree".toList, installPath := "/usr/share/tree".toList, mode := none, exclude := none,
+                    subproject := [], tag := none, follow := none,
+                    walk := [{ rel := [], rootMode := 0o755, dirs := [("sub dir".toList, .real 0o700)],
+                               files := [("ü.txt".toList, .file 0o644 1 2)] },
+                             { rel := ["sub dir".toList], rootMode := 0o700, dirs := [],
+                               files := [(" x ".toList, .file 0o600 3 4)] }] }] } :=
+  ⟨by decide, by decide, by decide, by decide, by decide, by decide⟩
 
 /-- the former escape is refused: `share/../../../outside/d.txt`, prefix `/usr`, `DESTDIR=/tmp/x/dest`;
 an install path with `..` that stays inside DESTDIR is still accepted -/
@@ -202,6 +233,46 @@ theorem uninstall_removes_logged_file (cwd path : Str) (fs : FS) (m d t : Nat) (
 example : (uninstall "/b".toList ["/d/x ".toList]
     [(["d", "x "].map String.toList, .file 0o644 1 1), (["d"].map String.toList, .dir 0o755)]).get
       (["d", "x "].map String.toList) = none := by decide
+
+/-- **Uninstall restores a fresh destination, for whole logs.**  Let `fs` be the tree before and `fs'` the tree
+after an installation whose log is `log`.  If (fresh) no logged path existed before, (log complete) the two trees
+agree on every key the log does not name, (fresh, continued) nothing that existed before sits directly inside a
+logged path, and (children first) no logged path is followed by one of its own children — the order
+`DirMaker.__exit__` produces by logging files first and directories in reverse creation order — then replaying
+the log with `do_uninstall` gives back `fs` on every key.  Comment lines and repeated lines are allowed. -/
+theorem uninstall_restores (cwd : Str) (log : List Str) (fs fs' : FS)
+    (hfresh : ∀ k ∈ logKeys cwd log, fs.get k = none)
+    (hcomplete : ∀ k, k ∉ logKeys cwd log → fs'.get k = fs.get k)
+    (hinside : ∀ c, c ≠ [] → fs.get c ≠ none → c.dropLast ∉ logKeys cwd log)
+    (horder : ChildrenFirst (logKeys cwd log)) :
+    ∀ k, (uninstall cwd log fs').get k = fs.get k := by
+  rw [uninstall_eq]
+  exact removeKeys_restores fs _ fs' hfresh hcomplete hinside horder
+
+/-- the hypotheses of `uninstall_restores` are satisfiable (names with spaces, a comment line, a directory
+logged after its content) -/
+example :
+    ∀ k, (uninstall "/b".toList ["# c".toList, "/d/a b/f ".toList, "/d/a b".toList]
+      ((FS.set [(["d"].map String.toList, .dir 0o755)] (["d", "a b"].map String.toList) (.dir 0o755)).set
+        (["d", "a b", "f "].map String.toList) (.file 0o644 1 1))).get k =
+      FS.get [(["d"].map String.toList, .dir 0o755)] k := by
+  have hk : logKeys "/b".toList ["# c".toList, "/d/a b/f ".toList, "/d/a b".toList] =
+      [["d", "a b", "f "].map String.toList, ["d", "a b"].map String.toList] := by decide
+  apply uninstall_restores
+  · rw [hk]; decide
+  · intro k hkn
+    rw [hk] at hkn
+    simp only [List.mem_cons, List.not_mem_nil, or_false, not_or] at hkn
+    rw [get_set_other _ _ _ _ hkn.1, get_set_other _ _ _ _ hkn.2]
+  · intro c hc hg
+    rw [hk]
+    have : c = ["d"].map String.toList := by
+      by_cases hne : (["d"].map String.toList) = c
+      · exact hne.symm
+      · exfalso; apply hg; simp only [FS.get, hne, if_false]
+    subst this
+    decide
+  · rw [hk]; unfold ChildrenFirst; decide
 
 /-! ### histories on a concrete plan (sanity instances of reversibility and idempotence) -/
 
